@@ -113,6 +113,7 @@ def run(pid, tier, seed, replay, t0):
     ev_ = evaluate(pid, ctx, tables, props, impl)
     cases, disagreements, failures, klasses = ev_["cases"], ev_["disagreements"], ev_["failures"], ev_["klasses"]
     evals, agree, samples, dres = ev_["evals"], ev_["agree"], ev_["samples"], ev_["dres"]
+    fuzz_info = ev_.get("fuzz")
     broken.extend(ev_["broken"])
     soak = None
     if tier == "thorough" and not broken and not failures:
@@ -189,6 +190,7 @@ def run(pid, tier, seed, replay, t0):
             "class_histogram": dict(collections.Counter(c["klass"].split(":")[0] for c in cases).most_common(12)),
             "direct": {k: v for k, v in (dres or {}).items() if k not in ("failures", "classes")},
             "exhaustive": False,
+            "source_delta_stage": fuzz_info or "not run: the modelled code files equal the baseline the model was validated against",
             "soak": ({k: v for k, v in soak.items() if k not in ("classes", "disagreements", "failures")} if soak else None),
         },
         "assumptions": ["the hand-written model functions mirror the Python functions (validated by this run's correspondence, not proved)",
@@ -213,6 +215,9 @@ def evaluate(pid, ctx, tables, props, impl):
     except Exception as e:  # noqa  generator cannot even lay the definitions out
         cases = []
         broken.append({"kind": "generator", "what": "case generator failed on the current tables: %r" % (e,)})
+    fz = fuzz_stage(pid, ctx, cases) if not os.environ.get("VERIF_WORKER") else None
+    if fz:
+        cases = cases + fz["cases"]
     direct = getattr(props, "direct_" + pid, None)
     lines = [c["line"] for c in cases]
     model_out = core.run_driver(lines) if lines else []
@@ -233,7 +238,13 @@ def evaluate(pid, ctx, tables, props, impl):
                 klasses.add(c["klass"])
         else:
             disagreements.append({"line": c["line"], "extra": c["extra"], "klass": c["klass"], "model": mc[:2000], "impl": io_[:2000], "oracle": c["oracle"]})
-        if c["oracle"]:
+        if c["oracle"] and c["oracle"][0] == "model":
+            # inputs found by the source-delta-guided stage: the model's answer is the specification side this
+            # property's theorems are about, so where the model accepts, the implementation must give that answer
+            if mc.startswith("ok ") and io_ != mc:
+                failures.append({"line": c["line"], "extra": c["extra"], "klass": c["klass"], "impl": io_[:2000], "oracle": None,
+                                 "what": "on an input reached through the changed source the implementation gives %s, the proved model %s" % (io_[:160], mc[:160])})
+        elif c["oracle"]:
             r = props.ORACLES[c["oracle"][0]](io_, c["oracle"][1], ctx)
             if r:
                 failures.append({"line": c["line"], "extra": c["extra"], "klass": c["klass"], "what": r, "impl": io_[:2000], "oracle": c["oracle"]})
@@ -247,7 +258,62 @@ def evaluate(pid, ctx, tables, props, impl):
             failures.append(f)
         klasses |= set(dres.get("classes", []))
     return {"cases": cases, "disagreements": disagreements, "failures": failures, "klasses": klasses, "evals": evals,
-            "agree": agree, "samples": samples, "dres": dres, "broken": broken}
+            "agree": agree, "samples": samples, "dres": dres, "broken": broken,
+            "fuzz": ({k: v for k, v in fz.items() if k != "cases"} if fz else None)}
+
+
+FUZZ_MODES = {"C01": ["stream", "sock"], "C02": ["stream", "sock"], "C03": ["msg"], "C04": ["msg", "frame", "stream", "sock"], "C05": ["stream"],
+              "C06": ["msg"], "C07": ["msg", "frame"], "C08": ["frame"], "C09": ["msg"], "C10": ["msg"], "C11": ["sock"], "C12": ["sock"],
+              "C13": ["msg"], "C14": ["msg"], "C15": ["msg"], "C16": ["msg"], "C17": ["frame", "stream"], "C18": ["msg"], "C19": ["msg"]}
+MODEL_IS_SPEC = {"C03", "C09", "C15", "C06", "C10"}
+
+
+def fuzz_stage(pid, ctx, cases):
+    """source-delta-guided input generation: only when a modelled code file differs from the baseline the model
+    was validated against.  Literals on the changed lines become a dictionary, the property's own cases the seeds,
+    a coverage-guided fuzzer over the implementation under test the generator; whatever it finds is run through the
+    ordinary correspondence (and, for message-level properties, compared with the proved model)."""
+    import fuzz_ops
+    changed, lits = fuzz_ops.source_delta(core.REPO)
+    if not changed and os.environ.get("VERIF_FORCE_DELTA"):
+        changed = {"(forced)": []}          # self-test of the stage on an unchanged tree
+    if not changed:
+        return None
+    info = {"changed": {f: len(v) for f, v in changed.items()}, "literals": len(lits), "modes": {}, "cases": []}
+    runs = {"msg": 30000, "frame": 30000, "stream": 12000, "sock": 12000}
+    mult = 6 if ctx.tier == "thorough" else 1
+    work = os.path.join(core.WORK, "fuzz", pid)
+    os.makedirs(work, exist_ok=True)
+    for mode in FUZZ_MODES.get(pid, []):
+        seeds = [fuzz_ops.from_line(mode, c["line"]) for c in cases]
+        seeds = [s for s in seeds if s is not None]
+        ctx.rng.shuffle(seeds)
+        # the literals themselves, alone and in front of / inside a few seeds
+        for l in lits[:40]:
+            for s in seeds[:3]:
+                seeds.append(s[:1] + l + s[1:])
+                seeds.append(s[:3] + l + s[3:])
+                k = len(s) // 2
+                seeds.append(s[:k] + l + s[k + len(l):])
+            seeds.append(bytes([0, 17, 5]) + l)
+        new, note = fuzz_ops.run_fuzz(core.REPO, mode, seeds, lits, runs[mode] * mult, ctx.seed + 1, work)
+        extra = [s for s in seeds if s is not None][-(40 * 10 + 40):] if lits else []
+        n = 0
+        for b in new + extra:
+            for line in fuzz_ops.to_ops(mode, b):
+                if len(line) > 9000:
+                    continue
+                orc = None
+                if mode == "msg":
+                    orc = ("total", {}) if pid == "C04" else (("model", {}) if pid in MODEL_IS_SPEC else None)
+                elif pid == "C04":
+                    orc = ("total", {})
+                info["cases"].append({"line": line, "klass": "delta:%s" % mode, "oracle": orc, "extra": {"handler": True} if mode in ("stream", "sock") else {}, "meta": {}})
+                n += 1
+                if pid == "C18" and mode == "msg":
+                    info["cases"].append({"line": "helpers " + line.split(" ", 1)[1], "klass": "delta:helpers", "oracle": None, "extra": {}, "meta": {}})
+        info["modes"][mode] = {"seeds": len(seeds), "found": len(new), "cases": n, "note": note}
+    return info
 
 
 def worker(pid, tier, wseed):
@@ -277,7 +343,7 @@ def run_soak(pid, seed):
         wseed = (seed + 1) * 7919 + i + 1
         procs.append((wseed, subprocess.Popen([core.PY, os.path.abspath(__file__), pid, "--tier", "thorough", "--worker", str(wseed)],
                                               stdout=subprocess.PIPE, stderr=subprocess.PIPE, text=True,
-                                              env=dict(os.environ, VERIF_REPO=core.REPO))))
+                                              env=dict(os.environ, VERIF_REPO=core.REPO, VERIF_WORKER="1"))))
     res = {"workers": k, "seeds": [w for w, _ in procs], "ops": 0, "evaluations": 0, "agree": 0, "classes": set(),
            "disagreements": [], "failures": [], "infra": []}
     for wseed, p in procs:
